@@ -26,6 +26,7 @@ import (
 	"bytes"
 	"encoding/json"
 	"fmt"
+	"io"
 	"strings"
 
 	"github.com/danos/encoding/rfc7951"
@@ -56,8 +57,10 @@ func decodeValue(val interface{}) (string, error) {
 		} else {
 			return "false", nil
 		}
-	case float64: // Non-empty Leaf containing number of any sort
-		return fmt.Sprintf("%d", int(typeValue)), nil
+	case json.Number: // Non-empty Leaf containing number of any sort
+		return typeValue.String(), nil
+	case rfc7951.Number:
+		return typeValue.String(), nil
 	case nil: // Empty leaf
 		return "", nil
 	default:
@@ -168,6 +171,33 @@ func UnmarshalJSONWithoutValidation(
 	return unmarshalJSONInternal(sn, json_input, schema.DontValidate, JSON)
 }
 
+type jsonDecoder interface {
+	UseNumber()
+	Decode(v interface{}) error
+	Buffered() io.Reader
+}
+
+// decodeDocument decodes the single JSON value of the input. Numbers are
+// kept as the literals they were written as, so that the YANG type decides
+// whether a literal is acceptable: a 64-bit integer does not survive a
+// conversion to float64 and a fraction must not be truncated to an integer.
+func decodeDocument(dec jsonDecoder, input io.Reader, v interface{}) error {
+	dec.UseNumber()
+	if err := dec.Decode(v); err != nil {
+		return err
+	}
+	// As with Unmarshal, only white space may follow the value
+	rest, err := io.ReadAll(io.MultiReader(dec.Buffered(), input))
+	if err != nil {
+		return err
+	}
+	if rest = bytes.TrimSpace(rest); len(rest) != 0 {
+		return fmt.Errorf(
+			"invalid character %q after top-level value", rest[0])
+	}
+	return nil
+}
+
 func unmarshalJSONInternal(
 	sn schema.Node,
 	json_input []byte,
@@ -176,14 +206,13 @@ func unmarshalJSONInternal(
 ) (datanode.DataNode, error) {
 
 	jr := JSONReader{decodedName: sn.Name()}
+	input := bytes.NewReader(json_input)
+	var dec jsonDecoder = json.NewDecoder(input)
 	if enc == RFC7951 {
-		if err := rfc7951.Unmarshal(json_input, &jr.decodedMsg); err != nil {
-			return nil, err
-		}
-	} else {
-		if err := json.Unmarshal(json_input, &jr.decodedMsg); err != nil {
-			return nil, err
-		}
+		dec = rfc7951.NewDecoder(input)
+	}
+	if err := decodeDocument(dec, input, &jr.decodedMsg); err != nil {
+		return nil, err
 	}
 
 	datatree, err := convertToDataNode([]string{}, sn.Name(), &jr, sn)
